@@ -22,12 +22,12 @@ TRUSTED_BASE = [
     "Lean 4.33.0 kernel (thorough tier: leanchecker re-check of the property module)",
     "axioms allowed: propext, Classical.choice, Quot.sound (audited by #print axioms on every property theorem each run); no native_decide, bv_decide, sorry, user axioms",
     "K-gen: gen/leaf.py (clang-14 AST -> Lean, if-chain fragment) and harness/tabledump.cc (re-expands the repo's X-macros); outputs additionally K-diffed",
-    "K-diff: harness/*.cc drivers, python generators/canonicalisers, g++ 12.2 ASan+UBSan+_GLIBCXX_SANITIZE_VECTOR; differential testing is sampling",
+    "K-diff: harness/*.cc drivers, python generators/canonicalisers, g++ 12.2 ASan+UBSan (incl. float-cast-overflow, float-divide-by-zero)+_GLIBCXX_SANITIZE_VECTOR; differential testing is sampling",
     "hand-written Lean model of the control logic (tied to the C++ only by K-diff)",
     "libc, libstdc++, Hinnant date, Linux kernel: modelled/assumed, not verified",
 ]
 
-SAN_FLAGS = ['-std=c++17', '-O1', '-g', '-fno-omit-frame-pointer', '-fsanitize=address,undefined',
+SAN_FLAGS = ['-std=c++17', '-O1', '-g', '-fno-omit-frame-pointer', '-fsanitize=address,undefined', '-fsanitize=float-cast-overflow,float-divide-by-zero',
              '-fno-sanitize-recover=all', '-D_GLIBCXX_SANITIZE_VECTOR', '-DNDEBUG', '-D' + GUARD, '-pthread']
 
 
@@ -72,7 +72,7 @@ def _files(root, exts):
 
 def repo_hash():
     h = hashlib.sha256()
-    for root in ('include', 'src'):
+    for root in ('include', 'src', 'subprojects/hinnant-date/include'):     # everything the sanitizer build compiles
         for f in _files(os.path.join(REPO, root), ('.h', '.cc', '.hpp', '.cpp')):
             h.update(f.encode()); h.update(b'\0')
             h.update(open(f, 'rb').read()); h.update(b'\0')
@@ -111,7 +111,7 @@ def build_impl(extra_flags=None, tag='impl'):
     """Compile every /repo/src/**/*.cc of the CURRENT working tree with sanitizers + hooks on.
     Returns (dir, libpath, error-or-None)."""
     flags = SAN_FLAGS if extra_flags is None else extra_flags
-    hh = repo_hash() if extra_flags is None else hashlib.sha256((repo_hash() + ' '.join(flags)).encode()).hexdigest()[:16]
+    hh = hashlib.sha256((repo_hash() + ' '.join(flags)).encode()).hexdigest()[:16]      # the flags are part of the key
     d = os.path.join(CACHE, '%s-%s' % (tag, hh))
     lib = os.path.join(d, 'libpistache_v.a')
     with Lock('build-' + tag):
